@@ -13,11 +13,14 @@ func genOffline(r *rng, i int) *Spec      { return genSmoke(r) }
 func genDisk(r *rng, i int) *Spec         { return genSmoke(r) }
 func genOptimization(r *rng, i int) *Spec { return genSmoke(r) }
 func genChaos(r *rng, i int, tier string) *Spec { return genSmoke(r) }
-func genLock(r *rng, i int) *Spec         { return genSmoke(r) }
-func genDataplane(r *rng, i int) *Spec    { return genSmoke(r) }
 
-func runEngineB(s *Sim) *Result { return s.result() }
 
 func (s *Sim) pilotCall(owner, key string) {}
 
-func (m *Monitors) nontrivial() bool { return m.faultsTotal > 0 }
+// nontrivial: per-family rule (reported in the evidence 'rule' text)
+func (m *Monitors) nontrivial() bool {
+	if m.s.spec.Engine == "B" {
+		return m.opsDone >= 5
+	}
+	return m.faultsTotal > 0
+}
